@@ -87,7 +87,7 @@ meta("C13",
 meta("C10",
      rule="states built from generated GFA1/GFA2 documents (asymmetric CIGARs, paths, groups; vlevel 0-3, canonical and free spelling, so that lazily decoded fields exist) x random sequences of 10-40 calls drawn from the catalogue of read-only public queries (vlib/mon/catalogue.py: Gfa-, line-, segment-, edge-, link-, group- and alignment-level); every call is executed twice under the purity guard: full observation of the Gfa plus written form / repr of receiver and argument objects before, between and after, and both answers must agree; non-trivial = sequence touching a CIGAR with I/D or a lazily decoded / freely spelled field",
      budget={"quick": 30, "thorough": 450},
-     min_counts={"quick": {"guarded_calls": 15000, "queries_exercised": 140}},
+     min_counts={"quick": {"guarded_calls": 10000, "queries_exercised": 155}},
      set_samples=["queries_exercised"])
 
 meta("C12",
@@ -123,7 +123,7 @@ meta("C16",
 meta("C18",
      rule="(a) generated valid documents built at levels 0,1,2,3: written text (textually for canonical spelling, canonically for free spelling) and full observation must agree; (b) hostile documents and mutants built at all four levels: acceptance must be monotone (accepted at k => accepted at every lower level); (c) assignment scripts: 24 positional fields/tags x valid and invalid values x levels 0-3 x set()/attribute, followed by validate_field, validate, field_to_s, get, str: invalid reported at the assignment at level 3, at the latest on write at level 2, by explicit validation at every level; valid never rejected; non-trivial = document with delayed-parsing datatypes, acceptance differing between levels, or any assignment; distinct by (document | field, value, level, way)",
      budget={"quick": 25, "thorough": 360},
-     min_counts={"quick": {"level_builds": 4000, "monotonicity_builds": 4000, "assignments": 20000, "invalid_validated": 3000, "assign_cells": 150}})
+     min_counts={"quick": {"level_builds": 4000, "monotonicity_builds": 4000, "assignments": 8000, "invalid_validated": 2000, "assign_cells": 150}})
 
 meta("C14",
      rule="GFA1 (70%) and GFA2 graphs of 2-8 segments with M/=-only or '*' overlaps: backbone chains of 2-5 segments in every mix of orientations, rings, plus branches, self-links, hairpins on chain ends and inside, chains sharing junctions, with and without sequences; linear_paths() is compared with the independent chain finder (modulo reversal / ring rotation); after merge_linear_paths(): spelled sequence (orientation taken from the path gfapy reported), length, exact multiset of outward dovetails re-attached to the right ends, untouched segments, component partition, closed/symmetric object graph, idempotence; non-trivial = a chain of >=3 segments with mixed exit ends",
